@@ -823,7 +823,17 @@ func TestC08Session(t *testing.T) {
 				case 3:
 					// hostile trailing length field (InitHello carries a 16-bit length at the end)
 					if len(p) >= 2 {
-						binary.BigEndian.PutUint16(p[len(p)-2:], uint16(rapid.SampledFrom([]int{0, 1, 65535, len(p), len(p) - 6}).Draw(t, "tailLen")))
+						// every value around the body length (the body is what follows the 4-byte counter; the field itself takes 2)
+						binary.BigEndian.PutUint16(p[len(p)-2:], uint16(rapid.SampledFrom([]int{0, 1, 65535, len(p), len(p) - 1, len(p) - 2, len(p) - 3, len(p) - 4, len(p) - 5, len(p) - 6, len(p) - 7, len(p) - 8}).Draw(t, "tailLen")))
+						if len(p) >= 4 && rapid.Bool().Draw(t, "asInitHello") {
+							binary.BigEndian.PutUint32(p, 0)
+						}
+						if rapid.IntRange(0, 3).Draw(t, "tiny") == 0 {
+							// the shortest packets that still have the field: counter 0 and a body of 2-6 bytes
+							n := rapid.IntRange(2, 6).Draw(t, "tinyBody")
+							p = make([]byte, 4+n)
+							binary.BigEndian.PutUint16(p[len(p)-2:], uint16(rapid.IntRange(max(0, n-3), n+1).Draw(t, "tinyLen")))
+						}
 					}
 				case 4:
 					p = append(p, rapid.SliceOfN(rapid.Byte(), 1, 8).Draw(t, "extra")...)
